@@ -10,7 +10,7 @@ from ..explore import Chooser
 from ._common import CtlProperty, default_sample, describe_unit, enter_trace, features
 
 ID = 'C05'
-ALPHABET = (('pause',), ('pause', 'm'), ('play',), ('resume', 'dflt'))
+ALPHABET = (('pause',), ('pause', 'm'), ('play',), ('resume', 'dflt'), ('unask',))
 
 
 def outcome_of(w: ctl.World) -> tuple:
@@ -134,7 +134,7 @@ def cfg_for(unit: Any) -> ctl.Config:
     return ctl.Config(alphabet=ALPHABET, closing=('gates', 'play', 'resume_if_none'), resume_default=('dflt',))
 
 
-WC_ALPHABET = (('pause',), ('pause', 'm'), ('play',))
+WC_ALPHABET = (('pause',), ('pause', 'm'), ('play',), ('unask',))
 
 
 def wc_cfg(unit: Any) -> ctl.Config:
